@@ -73,6 +73,12 @@ def configs(tier):
             ics.append(('sets', list(range(n - 1)), [n - 1]))
         if g == 'paw+K1':
             ics.append(('sets', [0, 1, 2, 3], []))       # the only susceptible node is isolated: no susceptible stub either
+        if g == 'P3':
+            for entry in SIS_GRAPH + SIR_GRAPH + NODE + OTHER:
+                if 'tcount' in _sig(entry):
+                    for tc in (2, 5):
+                        out.append(dict(entry=entry, graph=g, ic='rho', I0=None, R0=None, full=False, weighted=False, tcount=tc,
+                                        tags=[entry, g, 'rho', 'plain', 'tcount%d' % tc]))
         for entry in SIS_GRAPH + SIR_GRAPH + NODE + NODE_PURE + OTHER:
             sir = ('SIR' in entry) or entry.startswith('EBCM')
             for (kind, I0, R0) in ics:
@@ -356,7 +362,8 @@ def _run(h, cfg, eng, EoN, an, flow):
     eng.assume(lift(tmax) > lift(tmin))
     rho = None
     sir = ('SIR' in entry) or entry.startswith('EBCM')
-    kw = dict(tmin=tmin, tmax=tmax, tcount=3)
+    TC = cfg.get('tcount', 3)
+    kw = dict(tmin=tmin, tmax=tmax, tcount=TC)
     if cfg['ic'] == 'rho':
         rho = eng.real('rho', lo=0, hi=1, lo_strict=True, hi_strict=True)
         kw['rho'] = rho
@@ -405,10 +412,11 @@ def _run(h, cfg, eng, EoN, an, flow):
     slot = {n: ret[i] for i, n in enumerate(names) if n}
     t = list(slot['t'])
     for i, ti in enumerate(t):
-        want = tmin + (tmax - tmin) * Fraction(i, 2)
+        want = tmin + (tmax - tmin) * Fraction(i, TC - 1)
         h.require('times=linspace', EQ(ti, want), {'i': i, 'got': show(ti)})
-    if len(t) != 3:
-        h.fail('times=linspace', {'len': len(t)})
+    if len(t) != TC:
+        h.fail('times=linspace', {'len': len(t), 'tcount': TC})
+        return None
 
     def total(arr, i):
         """sum over classes/nodes of a 2-d series at time index i"""
@@ -424,9 +432,9 @@ def _run(h, cfg, eng, EoN, an, flow):
         if c in slot:
             series[c] = slot[c]
         elif c + 'k' in slot:
-            series[c] = [total(slot[c + 'k'], i) for i in range(3)]
+            series[c] = [total(slot[c + 'k'], i) for i in range(TC)]
         elif c + 's' in slot:
-            series[c] = [total(slot[c + 's'], i) for i in range(3)]
+            series[c] = [total(slot[c + 's'], i) for i in range(TC)]
     cs = ['S', 'I'] + (['R'] if sir else [])
     if any(c not in series for c in cs):
         h.fail('return-shape', {'missing': [c for c in cs if c not in series]})
